@@ -299,7 +299,19 @@ func mkRequest(r *rand.Rand, token string) *reqSpec {
 		rs.expect["x"], rs.expect["q"] = v("x"), v("q")
 	}
 	req.Header.Set("X-Token", token)
-	req.Header.Set("Accept", acc)
+	// the same negotiated type asked in several spellings, some sharing their first header line with a
+	// request that negotiates the other type
+	other := map[string]string{"application/json": "text/plain", "text/plain": "application/json"}[acc]
+	switch r.Intn(4) {
+	case 0:
+		req.Header["Accept"] = []string{other + ";q=0.5", acc}
+	case 1:
+		req.Header.Set("Accept", acc+";q=0.5")
+	case 2:
+		req.Header["Accept"] = []string{acc + ";q=0.5", other + ";q=0.1"}
+	default:
+		req.Header.Set("Accept", acc)
+	}
 	rs.req = req
 	return rs
 }
